@@ -41,6 +41,7 @@ type LoopSpec struct {
 	Dec      *Clause
 	Modifies []*Clause
 	Unroll   bool
+	UnrollN  int // unroll the loop this many iterations (with an unwinding obligation) instead of using an invariant
 }
 
 type Contract struct {
@@ -60,6 +61,7 @@ type Contract struct {
 		E    *Expr
 	}
 	Ghost   []string
+	Facts   []*FactDef // parameterised preconditions: required for all parameter values, used by explicit instantiation
 	Split   []*Clause // case split: one verification unit per case (added to the preconditions) + exhaustiveness obligation
 	Ats     []*AtStmt
 	Options map[string]string
@@ -86,6 +88,15 @@ type AtStmt struct {
 type macroDef struct {
 	params []string
 	body   string
+}
+
+// FactDef: "fact NAME(k int, j int): E" - a precondition schema. Callers must establish forall k,j. E (in the
+// pre-state); inside the unit it is never asserted as a quantified formula: ghost statements "inst NAME(e1, e2)"
+// add the instance E[k:=e1, j:=e2] (evaluated in the entry heap) at a program point.
+type FactDef struct {
+	Name string
+	Vars []BVar
+	C    *Clause
 }
 
 type ContractSet struct {
@@ -311,6 +322,28 @@ func (cs *ContractSet) ParseFile(path string, pkgPath string) {
 				Name string
 				E    *Expr
 			}{strings.TrimSpace(kv[0]), e})
+		case "fact":
+			lp := strings.Index(rest, "(")
+			rp := strings.Index(rest, ")")
+			col := strings.Index(rest, ":")
+			if lp < 0 || rp < lp || col < rp {
+				fail("fact needs NAME(vars): expr")
+				continue
+			}
+			fd := &FactDef{Name: strings.TrimSpace(rest[:lp])}
+			for _, v := range strings.Split(rest[lp+1:rp], ",") {
+				f := strings.Fields(v)
+				if len(f) == 1 {
+					fd.Vars = append(fd.Vars, BVar{f[0], "int"})
+				} else if len(f) == 2 {
+					fd.Vars = append(fd.Vars, BVar{f[0], f[1]})
+				}
+			}
+			fd.C = mkClause(strings.TrimSpace(rest[col+1:]))
+			if fd.C != nil {
+				fd.C.Name = "fact." + fd.Name
+				cur.Facts = append(cur.Facts, fd)
+			}
 		case "split":
 			for _, part := range splitTopLevel(rest, '|') {
 				if c := mkClause(part); c != nil {
@@ -378,6 +411,17 @@ func (cs *ContractSet) ParseFile(path string, pkgPath string) {
 				as.Kind = "set"
 				as.Name = strings.TrimSpace(kv[0])
 				as.C = mkClause(strings.TrimSpace(kv[1]))
+			} else if strings.HasPrefix(stmt, "inst ") {
+				// inst NAME(e1, e2)
+				body := strings.TrimSpace(strings.TrimPrefix(stmt, "inst "))
+				as.Kind = "inst"
+				as.C = mkClause(body)
+				if as.C != nil && as.C.E.Op == "call" && as.C.E.Args[0].Op == "id" {
+					as.Name = as.C.E.Args[0].Tok
+				} else {
+					fail("inst needs NAME(args)")
+					continue
+				}
 			} else if strings.HasPrefix(stmt, "mark ") {
 				as.Kind = "mark"
 				as.Name = strings.TrimSpace(strings.TrimPrefix(stmt, "mark "))
@@ -441,6 +485,10 @@ func (cs *ContractSet) ParseFile(path string, pkgPath string) {
 				}
 			case "unroll":
 				ls.Unroll = true
+				ls.UnrollN, _ = strconv.Atoi(strings.TrimSpace(body))
+				if ls.UnrollN <= 0 {
+					fail("loop unroll needs a positive iteration bound")
+				}
 			default:
 				fail("unknown loop clause %q", parts[1])
 			}
